@@ -41,6 +41,7 @@ func UnixMilli(t time.Time) int64 {
 type denoter struct {
 	names map[string]string
 	ptrs  map[unsafe.Pointer]*hspec.Value
+	depth int
 }
 
 // Denote maps a Go value to the abstract Hessian value the documented
@@ -56,6 +57,12 @@ func Denote(v interface{}, nameMap map[string]string) *hspec.Value {
 func (d *denoter) val(v reflect.Value) *hspec.Value {
 	if !v.IsValid() {
 		return hspec.Null()
+	}
+	// a decoded []interface{} or map may contain itself: fail recoverably instead of overflowing the stack
+	d.depth++
+	defer func() { d.depth-- }()
+	if d.depth > 5000 {
+		panic("zoo.Denote: value nested deeper than 5000 (self-containing container?)")
 	}
 	t := v.Type()
 	switch t.Kind() {
